@@ -89,6 +89,61 @@ def run(chk):
             ndis += 1
             chk.tie_break('correspondence:sfnt', 'FileFace and Model/SfntModel.v disagree: impl %s model %s' % (i[:200], m[:200]), c[:400])
         classes.add(('sfnt', i.split()[2], sum(1 for t in i.split()[3:] if t != 'NULL') > 0, min(len(c.split()[2]) // 64, 6)))
+    # --- the glyph-attribute reader: Gloc / Glat pairs (valid and structurally damaged) grafted on a font with an inert compiled Silf;
+    #     the real loader (tables served as exact-size heap copies) against Model/GlatModel.v: face verdict, read_glyph verdict and the
+    #     attribute values per glyph; C01_glat_reads_in_bounds says the model never reads outside either table
+    from props import fontkit as K, glatgen
+    gexe = vlib.build_model_driver('Glat')
+    gbase = K.enrich(open(os.path.join(vlib.REPO, 'tests/fonts/general.ttf'), 'rb').read())
+    gng, _ = K.base_info(gbase)
+    ginert = K.build_font(gbase, [dict(maxloop=1, rules=[dict(pre=0, pat=[{5}], acts=[[('G', 5)]])])])
+    gcases, gmcases, gdesc = [], [], []
+    for k in range(6000 if thorough else 600):
+        gloc, glat, desc, hot = glatgen.gen(rng, gng)
+        fp = os.path.join(tmp, 'gl%d.ttf' % k)
+        open(fp, 'wb').write(K.replace_table(K.replace_table(ginert, b'Gloc', gloc), b'Glat', glat))
+        gids = ','.join(map(str, hot))
+        gcases.append('gl%d api %s %d cb - gat:%s' % (k, fp, rng.choice((0, 0, 2)), gids))
+        gmcases.append('gl%d glat %d %s %s %s' % (k, gng, gloc.hex() or '-', glat.hex() or '-', gids))
+        gdesc.append(desc)
+    _, gil, _ = vlib.run_pair(None, hexe, gcases, timeout=2400)
+    gml, _, _ = vlib.run_pair(gexe, None, gmcases, timeout=2400)
+    gstats = {}
+    for c, mc, i, m, desc in zip(gcases, gmcases, gil, gml, gdesc):
+        if i is None or m is None:
+            chk.tie_break('harness', 'no result line', c[:200]); continue
+        rp = dict(case=c, model_case=mc[:4000], got=i[:800], tables=desc)
+        if 'ABORT' in i.split()[1:3]:
+            import base64, zlib
+            rp['font_gz_b64'] = base64.b64encode(zlib.compress(open(c.split()[2], 'rb').read(), 9)).decode()
+        if 'ABORT' in i.split()[1:3]:
+            chk.violation('c01:glat-abort:%s' % desc, 'loading a font with a crafted Gloc / Glat pair aborted (sanitizer report or watchdog): %s' % i[:300], rp); continue
+        mt = m.split()
+        r = apiseq.results(i)
+        if 'TRAP' in mt or ' T' in m.split(' GL ', 1)[-1]:
+            # the model read outside a table where the theorem says it cannot: the model or the theorem's hypotheses are off
+            chk.tie_break('correspondence:glat', 'Model/GlatModel.v reads outside a table: %s' % m[:200], c[:300]); continue
+        if not r:
+            chk.tie_break('harness', 'unparsable line %r' % i[:200], c[:300]); continue
+        face_ok = r[0] == 'face=ok'
+        mvals = mt[6:] if mt[2] == 'ok' else []
+        preload = int(c.split()[3]) & 2
+        model_ok = mt[2] == 'ok' and mvals[:1] != ['R'] and (not preload or mt[5] == 'ALL=ok')
+        gstats[desc.split()[0] + (' loaded' if face_ok else ' refused')] = gstats.get(desc.split()[0] + (' loaded' if face_ok else ' refused'), 0) + 1
+        classes.add(('glat', desc.split()[0], desc.split()[1], desc.split()[2], face_ok))
+        if face_ok != model_ok:
+            ndis += 1
+            chk.tie_break('correspondence:glat', 'the loader %s a font that Model/GlatModel.v %s [%s]: impl %s model %s' % ('accepts' if face_ok else 'refuses', 'refuses' if face_ok else 'accepts', desc, i[:160], m[:160]), c[:300]); continue
+        if not face_ok:
+            continue
+        got = [p for p in r[1] if p.startswith('gat=')]
+        if not got:
+            chk.tie_break('harness', 'no gat result %r' % i[:200], c[:300]); continue
+        gv = got[0][4:].split()
+        if gv[0].split(',')[0] != mt[3] or gv[1:] != [('0' if x == '-' else x) for x in mvals]:
+            ndis += 1
+            chk.tie_break('correspondence:glat', 'glyph attributes as read by the loader differ from Model/GlatModel.v [%s]: impl %s model %s' % (desc, ' '.join(gv)[:300], ' '.join(mt[3:5] + mvals)[:300]), c[:300])
+    dist.update({'glat ' + k: v for k, v in gstats.items()})
     # --- oracle: load + query everything + destroy
     cases, keep = [], {}
     fz = os.path.join(vlib.REPO, 'tests', 'fuzz-tests')
@@ -273,10 +328,10 @@ def run(chk):
             chk.violation('c01:%s:%s' % (t[2] if 'ABORT' in t[1:3] and len(t) > 2 else 'leak', keep.get(f[2], '?')[:100]), bad, rp)
     shutil.rmtree(tmp, ignore_errors=True)
     chk.notes.append('load oracle: %s; %d historical crashers replayed' % (sorted(stats.items()), nhist))
-    chk.cov.update(evaluations=len(scases) + len(cases) + len(pcases), distinct_nontrivial=len(classes), disagreements_checked=ndis, distribution=dist,
+    chk.cov.update(evaluations=len(scases) + len(cases) + len(pcases) + len(gcases), distinct_nontrivial=len(classes), disagreements_checked=ndis, distribution=dist,
                    rule='container: synthetic sfnt files (0..41 tables, offsets / lengths at, just past and far past the end, 32-bit extremes, wrong scaler, truncation anywhere, disagreeing table count) through FileFace '
                         'and the model, table by table; oracle: %d historical single-byte crashers from tests/fuzz-tests plus byte-mutated (60%%), directory-mutated (25%%) and truncated (15%%) copies of the 16 shipped fonts x '
-                        'option bits 0..7 x {callbacks, file}, plus the LZ4 block families of C14 wrapped as compressed Silf / Glat tables: make, all face / feature / label / feature-value queries, glyph lookups, destroy, LeakSanitizer; compiled GDL-lite fonts with field-level edits of one pass (16/32-bit header fields, body bytes, pass boundaries): loader verdict against the model of Pass::readPass; non-trivial = distinct (source, options, mode, verdict)' % nhist,
+                        'option bits 0..7 x {callbacks, file}, plus the LZ4 block families of C14 wrapped as compressed Silf / Glat tables: make, all face / feature / label / feature-value queries, glyph lookups, destroy, LeakSanitizer; compiled GDL-lite fonts with field-level edits of one pass (16/32-bit header fields, body bytes, pass boundaries): loader verdict against the model of Pass::readPass; Gloc / Glat pairs (versions 1 / 2, short / long offsets, attribute-id arrays; valid, and damaged: odd block lengths, run counts claiming more values than the block holds, a block ending at the end of the table, decreasing / overshooting offsets, truncation, header limits, keys out of order) against Model/GlatModel.v: face verdict, per-glyph verdict and attribute values; non-trivial = distinct (source, options, mode, verdict)' % nhist,
                    samples=[scases[0][:200], cases[0][:200]], exhaustive=False)
 
 
